@@ -1,6 +1,6 @@
 ---------------------------- MODULE MCAuthority ----------------------------
 EXTENDS Authority, Json
-AllStarts == {"none", "dead_lock", "dead_lock_meta", "dead_partial", "dead_meta", "live_serving", "live_starting"}
+AllStarts == {"none", "dead_lock", "dead_lock_meta", "dead_partial", "dead_meta", "dead_partial_meta", "live_serving", "live_starting"}
 DeadStarts == {"none", "dead_lock", "dead_lock_meta", "dead_partial"}
 P2 == {"p1", "p2"}
 P3 == {"p1", "p2", "p3"}
